@@ -1334,6 +1334,22 @@ impl core::fmt::Write for Sink {
         Ok(())
     }
 }
+/// sink that remembers the first byte ever written (0 = nothing written)
+pub struct FirstByte(pub u8);
+impl core::fmt::Write for FirstByte {
+    fn write_str(&mut self, s: &str) -> core::fmt::Result {
+        if self.0 == 0 && !s.is_empty() {
+            self.0 = s.as_bytes()[0];
+        }
+        Ok(())
+    }
+}
+pub fn debug_first_byte<T: core::fmt::Debug>(x: &T) -> u8 {
+    use core::fmt::Write;
+    let mut w = FirstByte(0);
+    let _ = write!(w, "{:?}", x);
+    w.0
+}
 pub fn debug_ok<T: core::fmt::Debug>(x: &T) -> bool {
     use core::fmt::Write;
     write!(Sink, "{:?}", DbgProbe(x)).is_ok()
